@@ -274,6 +274,7 @@ func runC04(c *Ctx) {
 	// framing rules of C02 (end-of-data table, drains) are necessary conditions of this property too
 	ruleDotTable(c)
 	ruleDrains(c)
+	ruleDrainFailureCloses(c)
 
 	// ---------- R-reply-count ----------
 	R.Rule("R-reply-count", "E2 path counting with callee summaries", "exactly one final reply on every entry-to-exit path of the dispatcher and of each command handler (intermediate 354/334 excluded; I/O-failure paths exempt)", 9)
